@@ -46,6 +46,7 @@ func (srv *Srv) NewConn(c net.Conn) {
 func (conn *Conn) close() {
 	verifPoint("close.begin", conn)
 	close(conn.done)
+	verifPoint("close.done", conn)
 	conn.Srv.Lock()
 	delete(conn.Srv.conns, conn)
 	conn.Srv.Unlock()
@@ -67,10 +68,12 @@ func (conn *Conn) close() {
 	for _, fid := range conn.fidpool {
 		fids = append(fids, fid)
 	}
+	verifPoint("@close.snapshot", conn, fids)
 	conn.Unlock()
 	for _, fid := range fids {
 		fid.Lock()
 		pending := fid.pending
+		verifPoint("@close.visit", conn, fid, pending)
 		fid.Unlock()
 		if !pending {
 			fid.destroy()
